@@ -622,6 +622,11 @@ func (hc *connectStreamingHandlerConn) Receive(msg any) error {
 	if err := hc.unmarshaler.Unmarshal(msg); err != nil {
 		// Clients may not send end-of-stream metadata, so we don't need to handle
 		// errSpecialEnvelope.
+		if errors.Is(err, errSpecialEnvelope) {
+			// A peer can send it all the same: don't hand the shared sentinel to
+			// user code (see newEndOfStreamError).
+			return newEndOfStreamError()
+		}
 		return err
 	}
 	return nil // must be a literal nil: nil *Error is a non-nil error
